@@ -37,10 +37,25 @@ type Conn struct {
 	outSig chan struct{}
 	closed chan struct{}
 	once   sync.Once
+
+	stallMu sync.Mutex
+	stall   chan struct{} // non-nil: WriteTo blocks until it is closed (a socket whose send buffer is full)
 }
 
 func NewConn(local net.Addr) *Conn {
 	return &Conn{local: local, in: make(chan Pkt), Ready: make(chan struct{}, 1<<16), outSig: make(chan struct{}, 1<<16), closed: make(chan struct{})}
+}
+
+// Stall makes every WriteTo block (on = true) until Stall(false) or Close.
+func (c *Conn) Stall(on bool) {
+	c.stallMu.Lock()
+	defer c.stallMu.Unlock()
+	if on && c.stall == nil {
+		c.stall = make(chan struct{})
+	} else if !on && c.stall != nil {
+		close(c.stall)
+		c.stall = nil
+	}
 }
 
 func (c *Conn) ReadFrom(p []byte) (int, net.Addr, error) {
@@ -91,6 +106,16 @@ func (c *Conn) WriteTo(p []byte, addr net.Addr) (int, error) {
 	case <-c.closed:
 		return 0, errors.New("memnet: closed")
 	default:
+	}
+	c.stallMu.Lock()
+	st := c.stall
+	c.stallMu.Unlock()
+	if st != nil {
+		select {
+		case <-st:
+		case <-c.closed:
+			return 0, errors.New("memnet: closed")
+		}
 	}
 	c.mu.Lock()
 	c.out = append(c.out, Pkt{append([]byte(nil), p...), addr})
